@@ -118,6 +118,8 @@ def generate(seed, tier, enlarged=False):
         for j, t in enumerate(times):
             data[j][0] = t
         c = {'kind': kind, 'data': data, 'rect': not ragged}
+        if kind == 'query' and rng.random() < 0.4:
+            c['twophase'] = True
         if kind == 'query':
             paths = all_paths(skel)
             q = []
@@ -202,8 +204,17 @@ def run_impl(c):
     try:
         if kind == 'embedded':
             ts = timeseries_from_data(copy.deepcopy(data))
-            times = ts.pop('time')
-            return {'ok': {'times': times, 'ts': enc_ets(ts)}}
+            # the embedded timeseries is the caller's: converting it to the path form must leave it as it is
+            from vivarium.core.emitter import path_timeseries_from_embedded_timeseries
+            kept = True
+            try:
+                before = copy.deepcopy(ts)
+                path_timeseries_from_embedded_timeseries(ts)
+                kept = ('time' in ts) and repr(before) == repr(ts)
+            except Exception:
+                pass                      # (ragged histories may be refused: not what is asked here)
+            times = ts.pop('time') if 'time' in ts else None
+            return {'ok': {'times': times, 'ts': enc_ets(ts)}, 'embedded_kept': kept}
         if kind == 'pathts':
             ts = path_timeseries_from_data(copy.deepcopy(data))
             times = ts.pop('time')
@@ -214,14 +225,32 @@ def run_impl(c):
         return {'err': 'EOther', 'exc': repr(e)[:200]}
     if kind == 'query':
         em = RAMEmitter({})
-        for t, row in data.items():
-            d = copy.deepcopy(row)
-            d['time'] = t
-            em.emit({'table': 'history', 'data': d})
-        out = []
         q = [tuple(p) for p in c['q']]
         if not q:
             return {'skip': 'empty query returns everything'}
+        if c.get('twophase'):
+            # every row arrives in two emits for its time (disjoint top-level keys), the same query being asked in
+            # between: the later part must be in the later answer
+            rest = {}
+            for t, row in data.items():
+                keys = sorted(row)
+                first = {k: copy.deepcopy(row[k]) for k in keys[:max(1, len(keys) // 2)]}
+                rest[t] = {k: copy.deepcopy(row[k]) for k in keys if k not in first}
+                first['time'] = t
+                em.emit({'table': 'history', 'data': first})
+            try:
+                em.get_data(q)
+            except Exception as e:
+                return {'err_all': repr(e)[:200]}
+            for t, d in rest.items():
+                d['time'] = t
+                em.emit({'table': 'history', 'data': d})
+        else:
+            for t, row in data.items():
+                d = copy.deepcopy(row)
+                d['time'] = t
+                em.emit({'table': 'history', 'data': d})
+        out = []
         try:
             got = em.get_data(q)
         except Exception as e:
@@ -259,6 +288,9 @@ def oracle(c, ob, rng):
                     msgs.append(('query %r at time %r returns %r, the emitted value is %r'
                                  % (p, t, have, want), 'query-drops-value'))
                     return msgs
+    if kind == 'embedded' and ob.get('embedded_kept') is False:
+        msgs.append(('converting an embedded timeseries to the path form changed the embedded timeseries itself '
+                     '(its time vector is gone or a column differs)', 'input-mutated'))
     if kind in ('embedded', 'pathts') and c.get('rect') and 'ok' in ob:
         n = len(c['data'])
         if ob['ok']['times'] != [float(t) for t, _ in c['data']]:
